@@ -41,7 +41,7 @@ CLAUSES = {"join": "valid distinct address recorded under its ID within the time
            "lookup": "master's current mapping, trivial answers, -2 / -1 codes", "undisturbed": "asking never disturbs the master",
            "release": "back to the unassigned address, lease freed", "connected": "check_connection() True exactly for connected nodes",
            "safe": "with loss: no exception, termination, valid-or-None"}
-PROBES = ["collision", "serialised_call_checked", "join_via_relay", "join_at_level_4", "master_mcu_stopped", "orphan_rejoined"]
+PROBES = ["collision", "serialised_call_checked", "join_via_relay", "join_at_level_4", "master_mcu_stopped", "orphan_rejoined", "fault:mcu_stall_on_rx"]
 SHRINK_KEYS = ("joiners", "faults")
 CHUNK = 2
 MAX_INCONCLUSIVE = 0.03
@@ -163,6 +163,32 @@ def make(i, base_seed, tier):
                 else:
                     after.append({"id": who, "op": {"op": "lookup_address", "id": xr.choice([ida, idb, 251]), "master_down": True}})
             scn["after_master_down"] = after
+    if not big and 0.2 <= fam < 0.3:
+        # targeted serialised families (loss-free, no MCU stalls besides the explicit one):
+        ids3 = xr.sample(range(1, 256), 3)
+        fake = [x for x in range(1, 256) if x not in ids3]
+        xr.shuffle(fake)
+        kn = [knobs() for _ in range(3)]
+        for k_ in kn + [scn["master_knobs"]]:
+            k_.pop("stall_prob", None)
+            k_.pop("stall_us", None)
+        if fam < 0.25:
+            # (long_then_release) a node's last frame before release_address() was a fragmented message to the master
+            ida = ids3[0]
+            ja = {"id": ida, "cls": "mesh", "offset_ms": 0, "knobs": kn[0],
+                  "ops": [{"op": "renew", "timeout": 10.0}, {"op": "send", "to": 0, "len": xr.choice([25, 40, 60, 100]), "type": xr.choice([1, 33]), "seed": xr.getrandbits(20)},
+                          {"op": "release"}]}
+            jb = {"id": ids3[1], "cls": "mesh", "offset_ms": 0, "knobs": kn[1], "ops": [{"op": "renew", "timeout": 10.0}, {"op": "lookup_address", "id": ida}]}
+            scn.update(serial=True, lossy=False, faults=[], prefill={}, joiners=[ja, jb], family="long_then_release")
+        else:
+            # (late_relay) level 1 is full with two real relays A and B; C joins below them.  A's MCU stalls (explicit fault) for longer
+            # than C's per-contact wait right after A's radio stored the master's reply to C: the stale offer via A arrives while C is
+            # asking B.  What C ends up using must be what the master's table says once everything is quiet
+            d = xr.sample(range(1, 6), 2)
+            pf = {fake.pop(): a_ for a_ in range(1, 6) if a_ not in d}
+            js = [{"id": ids3[k_], "cls": "mesh", "offset_ms": 0, "knobs": kn[k_], "ops": [{"op": "renew", "timeout": 10.0}]} for k_ in range(3)]
+            scn.update(serial=True, lossy=False, faults=[], prefill={str(k_): v for k_, v in pf.items()}, joiners=js, family="late_relay",
+                       stall_on_rx={"ptype": 128, "ms": xr.uniform(222, 262), "relay_ids": ids3[:2]})
     return scn
 
 
@@ -195,8 +221,24 @@ def _run(scn, w, res):
     for k, v in prefill.items():
         mnc.node.set_address(k, v)
     history.append((sim.now, dict(prefill)))
+    idr = stream(scn["seed"], "frame_ids")
+    mnc.mcu.next_id = idr.choice([0, 0, 0xFFF8, 0xFFFF, idr.getrandbits(16)])
     for j in scn["joiners"]:
-        net.add(j["id"], j["cls"], j["id"], knobs=j["knobs"])
+        nc_ = net.add(j["id"], j["cls"], j["id"], knobs=j["knobs"])
+        # each node's frame-id counter starts at a seeded value (new headers: one per lookup / mesh write), so 0xFFFD.. wraps in mid-run
+        nc_.mcu.next_id = idr.choice([0, 0, 0xFFFD, 0xFFFE, 0xFFFF, idr.getrandbits(16)])
+    if scn.get("stall_on_rx"):
+        rule = scn["stall_on_rx"]
+        target = [x["id"] for x in scn["joiners"]][2]
+        fired = []
+        for rid in rule["relay_ids"]:
+            def on_store(pipe, data, rid=rid):
+                # explicit fault: the first relay whose radio stores the master's MESH_ADDR_RESPONSE for the third joiner stalls
+                if not fired and len(data) >= 10 and data[6] == rule["ptype"] and data[7] == (target & 0xFF):
+                    fired.append(rid)
+                    net.nodes[rid].mcu.pending_stall = int(rule["ms"] * MS)
+                    sim.count("fault:mcu_stall_on_rx")
+            net.nodes[rid].radio.on_store = on_store
     net.start()
     sim.advance(2 * MS)
     lossy = scn.get("lossy", False)
@@ -249,7 +291,8 @@ def _run(scn, w, res):
             j = next(x for x in scn["joiners"] if x["id"] == nid)
             c = net.post(nid, op["op"], mk(j, op))
             net.wait(c, timeout=120 * SEC, step=MS)
-            net.wait_quiet(quiet=10 * MS, timeout=2 * SEC, step=MS)
+            net.wait_quiet(quiet=(320 if scn.get("family") == "late_relay" else 10) * MS, timeout=2 * SEC, step=MS)
+            c.t_quiet = sim.now
             cmds.setdefault(nid, []).append((op, c))
     if scn.get("serial") and scn.get("after_master_down"):
         net.halt("M")          # the master's MCU stops; its radio stays as it is
@@ -292,13 +335,10 @@ def _run(scn, w, res):
             return False
         if any(n2 != nid_ and a < c_.t1 and b > c_.t0 for (n2, a, b) in spans):
             return False
-        me = addr_during(nid_, c_.t0, c_.t0)
+        me = addr_during(nid_, c_.t0 - 1, c_.t0 - 1)      # (just before the call: a release's own start already marks a transition)
         if me is None or me == 0o4444 or not chain_alive(me, c_.t0 - 5 * MS, c_.t1):
             return False     # orphaned: a relay between this node and the master has left
-        for t in w.air.trace:
-            if not t["ack"] and c_.t0 - 5 * MS <= t["t0"] <= c_.t1 and (len(t["data"]) < 8 or t["data"][6] not in types):
-                return False
-        return True
+        return True     # (serialised runs wait for a quiet network before every call: nothing of earlier calls is in flight)
 
     timeline = {}   # node id -> [(time, address)] from the results of its own renew/release calls
     for nid2, lst2 in cmds.items():
@@ -413,6 +453,22 @@ def _run(scn, w, res):
                     sim.count("join_via_relay")
                 if netref.level(addr) == 4:
                     sim.count("join_at_level_4")
+                tq = getattr(c, "t_quiet", None)
+                if scn.get("stall_on_rx"):
+                    # a relay stalled for longer than the per-contact wait (outside the property's timing premise: a stale request it
+                    # forwards afterwards may move the lease at the master on any tree).  What remains checkable is the protocol rule
+                    # that keeps a node from taking a stale offer: the address it accepted is a child of the contact it last asked
+                    name = "n%s" % nc.key
+                    asked = [t for t in w.air.trace if t["src"] == name and not t["ack"] and len(t["data"]) >= 8 and t["data"][6] == 195 and c.t0 <= t["t0"] <= c.t1]
+                    if asked:
+                        contact = asked[-1]["data"][2] | (asked[-1]["data"][3] << 8)
+                        if netref.parent(addr) != contact:
+                            res.add("join", {"kind": "accepted_offer_of_another_contact"}, "id %d returned %o from renew_address() while the contact it had last asked was %o: an offer that came through another relay was accepted"
+                                    % (nid, addr, contact))
+                elif scn.get("serial") and tq is not None and tables(tq, tq)[-1].get(nid) != addr:
+                    # serialised run: nothing else is going on - once the network is quiet the master's table says what the node uses
+                    res.add("join", {"kind": "table_disagrees_after_quiescence"}, "id %d uses %o (returned by renew_address()), the master's table, once the network was quiet, maps it to %s"
+                            % (nid, addr, oct(tables(tq, tq)[-1][nid]) if nid in tables(tq, tq)[-1] else None))
                 if not any(tab.get(nid) == addr for tab in tables(c.t0, c.t1 + 50 * MS)):
                     res.add("join", {"kind": "not_in_master_table"}, "id %d was given %o but the master's table held %r for it" % (nid, addr, [oct(t[nid]) if nid in t else None for t in tables(c.t0, c.t1)][-1]))
                 continue
